@@ -13,10 +13,10 @@ open Log
 def matchers (n : Node) (index : Nat) : List Follower :=
   n.followers.filter (fun f => f.id ≠ n.id && n.config.isVoter f.id && decide (f.mtch ≥ index))
 
-/-- An index is committable: it holds an entry of the current term and the leader plus
-    the matching voters pass `hasQuorum`. -/
+/-- An index is committable: it holds an entry of the current term and the leader (if it
+    is a voter: fix S24) plus the matching voters pass `hasQuorum`. -/
 def Committable (n : Node) (c : Nat) : Prop :=
-  ∃ e, n.log.get? c = some e ∧ e.term = n.term ∧ n.config.hasQuorum (1 + (n.matchers c).length) = true
+  ∃ e, n.log.get? c = some e ∧ e.term = n.term ∧ n.config.hasQuorum (n.selfCount + (n.matchers c).length) = true
 
 theorem commitScan_spec (n : Node) : ∀ (fuel index best c : Nat), commitScan n fuel index best = some c →
     c = best ∨ (index ≤ c ∧ c < index + fuel ∧ n.Committable c) := by
@@ -38,7 +38,7 @@ theorem commitScan_spec (n : Node) : ∀ (fuel index best c : Nat), commitScan n
         · right; exact ⟨by omega, by omega, h3⟩
       · rw [if_neg ht] at h
         have hte : e.term = n.term := Classical.byContradiction fun hh => ht hh
-        by_cases hq : n.config.hasQuorum (1 + (n.followers.filter (fun f => f.id ≠ n.id && n.config.isVoter f.id && decide (f.mtch ≥ index))).length) = true
+        by_cases hq : n.config.hasQuorum (n.selfCount + (n.followers.filter (fun f => f.id ≠ n.id && n.config.isVoter f.id && decide (f.mtch ≥ index))).length) = true
         · rw [if_pos hq] at h
           rcases ih (index + 1) index c h with h1 | ⟨h1, h2, h3⟩
           · right; exact ⟨by omega, by omega, by rw [h1]; exact ⟨e, hg, hte, hq⟩⟩
